@@ -37,10 +37,13 @@ Record tstate := {
 }.
 Definition init_state : tstate := {| counter := 0; store := []; lits := [] |}.
 
+(* AST_OPERATIONS[k]: the record found under key k (its id field is the key it was stored under:
+   every store_in_ast writes AST_OPERATIONS[self.id] = ...(id=self.id, ...)) *)
 Fixpoint lookup (k : Z) (s : list (Z * arec)) : option arec :=
   match s with
   | [] => None
-  | (k', r) :: s' => if Z.eqb k k' then Some r else lookup k s'
+  | (k', r) :: s' => if Z.eqb k k' then Some {| r_id := k; r_ty := r_ty r; r_node := r_node r |}
+                     else lookup k s'
   end.
 
 (* ------------------------------------------------------------ wrappers *)
